@@ -222,6 +222,7 @@ func runC13(c *harness.Ctx) {
 	case 0:
 		cs := &streamSide{name: "c", dirOut: 0, dirIn: 1, plan: drawWrites(c, "cw", 5), rdBuf: rdbuf("c.rdbuf"), ending: &ending}
 		ss := &streamSide{name: "s", dirOut: 1, dirIn: 0, plan: drawWrites(c, "sw", 5), rdBuf: rdbuf("s.rdbuf"), ending: &ending}
+		maybeHuge(c, link, cs, ss)
 		cs.expectIn, ss.expectIn = planTotal(ss.plan), planTotal(cs.plan)
 		drawHangUp(c, cs, ss, true)
 		var cUp, sUp bool
@@ -465,6 +466,7 @@ func runC14(c *harness.Ctx) {
 	case 0:
 		cs := &streamSide{name: "c", dirOut: 0, dirIn: 1, plan: drawWrites(c, "cw", 5), rdBuf: rdbuf("c.rdbuf"), ending: &ending}
 		ss := &streamSide{name: "s", dirOut: 1, dirIn: 0, plan: drawWrites(c, "sw", 5), rdBuf: rdbuf("s.rdbuf"), ending: &ending}
+		maybeHuge(c, link, cs, ss)
 		cs.expectIn, ss.expectIn = planTotal(ss.plan), planTotal(cs.plan)
 		drawHangUp(c, cs, ss, true)
 		var cUp, sUp bool
